@@ -268,7 +268,7 @@ func c19run(r *ev.Run) {
 		bound = 6
 	}
 	kinds := map[string]bool{}
-	ex := &xplore.Explorer{Bounds: []int{bound}, Workers: r.Workers, Body: func(c *xplore.Ctx) {
+	ex := &xplore.Explorer{Bounds: []int{bound}, Workers: r.Workers, Deadline: deadlineFor(r.Tier), Body: func(c *xplore.Ctx) {
 		s := c19select(c, 3)
 		n := r.Eval()
 		r.State(astx.HashString(s.text), len(s.reads) > 1 || s.hasInto)
